@@ -34,11 +34,11 @@ var wireRoots = []string{
 // E3 is the shared result of the taint analysis over a set of roots.
 type E3 struct {
 	cipherDepth int
-	p      *Prog
-	roots  []*ssa.Function
-	region map[*ssa.Function]bool
-	order  []*ssa.Function
-	t      *Taint
+	p           *Prog
+	roots       []*ssa.Function
+	region      map[*ssa.Function]bool
+	order       []*ssa.Function
+	t           *Taint
 }
 
 func newE3(p *Prog, r *Result, rootNames []string, extra []*ssa.Function) *E3 {
@@ -201,7 +201,6 @@ func (e *E3) survey() {
 
 var _ = token.ADD
 
-
 // ---- G1: explicit panics -----------------------------------------------------------
 
 // reviewedPanics: explicit panics whose guarding condition involves a value
@@ -209,35 +208,35 @@ var _ = token.ADD
 // peer-triggerable. Key: function|message. Any tainted panic not listed here is
 // a violation; entries that no longer match anything are reported as notes.
 var reviewedPanics = map[string]string{
-	"fdo.hmacHash|HMAC-SHA256 support is required":                                             "config: the HMAC objects are device configuration (DIConfig/TO2Config); the dead nil test follows a method call on the same value",
-	"fdo.hmacVerify|HMAC-SHA256 support is required":                                           "config: HmacSha256 is mandatory device configuration",
-	"fdo.sendReadyServiceInfo|only SHA256 and SHA384 are supported in FDO":                     "the algorithm is the device's own credential hash type or the result of hashAlgFor (constants only)",
-	"fdo/cbor.Decoder.decodeStructField|<dynamic>":                                             "type-shape: depends on struct tags of the decode target, not on wire values",
-	"fdo/cbor.Encoder.encodeStruct|<dynamic>":                                                  "type-shape: depends on struct tags of the encoded type",
-	"fdo/cbor.flatN|invalid cbor struct tag 'flatNNN' option: …":                               "type-shape: struct tag syntax",
+	"fdo.hmacHash|HMAC-SHA256 support is required":                                                           "config: the HMAC objects are device configuration (DIConfig/TO2Config); the dead nil test follows a method call on the same value",
+	"fdo.hmacVerify|HMAC-SHA256 support is required":                                                         "config: HmacSha256 is mandatory device configuration",
+	"fdo.sendReadyServiceInfo|only SHA256 and SHA384 are supported in FDO":                                   "the algorithm is the device's own credential hash type or the result of hashAlgFor (constants only)",
+	"fdo/cbor.Decoder.decodeStructField|<dynamic>":                                                           "type-shape: depends on struct tags of the decode target, not on wire values",
+	"fdo/cbor.Encoder.encodeStruct|<dynamic>":                                                                "type-shape: depends on struct tags of the encoded type",
+	"fdo/cbor.flatN|invalid cbor struct tag 'flatNNN' option: …":                                             "type-shape: struct tag syntax",
 	"fdo/cbor.fieldOrder$1|programming error - indices to sort cannot be a parent embedded field of another": "type-shape",
-	"fdo/cose.emptyOrSerializedMap.MarshalCBORStream|emptyOrSerializedMap does not support flattening":   "type-shape: `flattened` comes from struct tags",
-	"fdo/cose.emptyOrSerializedMap.UnmarshalCBORStream|emptyOrSerializedMap does not support flattening": "type-shape: `flattened` comes from struct tags",
-	"fdo/cbor.Encoder.encodeArray|negative array lengths are invalid":                          "impossible: the length is a reflect Len() result",
-	"fdo/cbor.Encoder.encodeMap|negative map lengths are invalid":                              "impossible: the length is a reflect Len() result",
-	"fdo/cbor.Encoder.encodeTextOrBinary|array contents were not fully copied into a slice for encoding": "impossible: reflect.Copy into a slice made with the array's length",
-	"fdo/cbor.additionalInfo|additionalInfo was not 1, 2, 4, or 8 bytes":                       "by construction: every caller passes the result of the head-size helper (1, 2, 4 or 8 bytes); checked by rule head-bytes",
-	"fdo/cbor.toU64|too many bytes to decode into a uint64 without overflowing":                "by construction: callers pass the additional-bytes buffer made with constant size 1/2/4/8 or a 1-byte literal; checked by rule head-bytes",
-	"fdo/cbor.overflows|programming error - invalid kind for overflow check":                   "validated by caller: the kind switch in decodePositive precedes the call",
-	"fdo/cbor.overflowsInt|programming error - invalid kind for overflow check":                "validated by caller: the kind switch in decodeNegative precedes the call",
-	"fdo/cbor.BytewiseLexicalSort$1|unreachable for valid CBOR map keys":                       "keys were marshalled by this encoder immediately before sorting",
-	"fdo/cbor/cdn.sortMap|<dynamic>":                                                           "debug notation only: keys were produced by this decoder and are re-encodable",
-	"fdo/internal/nistkdf.KDF|unsupported hash size":                                           "registry data: the PRF hash comes from a registered cipher suite (C09.cipher-registry pins it to SHA-256/384)",
-	"fdo/internal/nistkdf.KDF|n too large":                                                     "registry data: key sizes come from registered algorithms",
-	"fdo/kex.ecdhParam.MarshalBinary|invalid public key - too large":                           "own key: the encoded point is this side's freshly generated key",
-	"fdo/plugin.command.ParseParam|programming error - invalid pluginCommand":                  "local plugin protocol (child process), enumeration of own constants",
-	"fdo/plugin.command.ValidParamType|programming error - invalid pluginCommand":              "local plugin protocol (child process), enumeration of own constants",
-	"fdo/plugin.protocol.EncodeValue|<dynamic>":                                                "local plugin protocol (child process)",
-	"fdo/serviceinfo.ArraySizeCBOR|service info cannot contain > 65535 KVs":                    "local producer: counts service info produced by local modules within one MTU",
-	"fdo/serviceinfo.cborEncodedLen|KV cannot have length > max uint16":                        "local producer: sizes of locally produced chunks, bounded by the uint16 MTU",
-	"fdo/fsim.Command.receive|command should always be started":                                "invariant cmd!=nil => started, restored by fix 7f4b2aa and checked by rule cmd-started",
-	"fdo/fsim.Command.reset|command should always be started":                                  "invariant cmd!=nil => started, restored by fix 7f4b2aa and checked by rule cmd-started",
-	"fdo/sqlite.query|programming error - query must have the same number of columns and values": "call sites pass literal column lists and matching destinations (C18 extracts them)",
+	"fdo/cose.emptyOrSerializedMap.MarshalCBORStream|emptyOrSerializedMap does not support flattening":       "type-shape: `flattened` comes from struct tags",
+	"fdo/cose.emptyOrSerializedMap.UnmarshalCBORStream|emptyOrSerializedMap does not support flattening":     "type-shape: `flattened` comes from struct tags",
+	"fdo/cbor.Encoder.encodeArray|negative array lengths are invalid":                                        "impossible: the length is a reflect Len() result",
+	"fdo/cbor.Encoder.encodeMap|negative map lengths are invalid":                                            "impossible: the length is a reflect Len() result",
+	"fdo/cbor.Encoder.encodeTextOrBinary|array contents were not fully copied into a slice for encoding":     "impossible: reflect.Copy into a slice made with the array's length",
+	"fdo/cbor.additionalInfo|additionalInfo was not 1, 2, 4, or 8 bytes":                                     "by construction: every caller passes the result of the head-size helper (1, 2, 4 or 8 bytes); checked by rule head-bytes",
+	"fdo/cbor.toU64|too many bytes to decode into a uint64 without overflowing":                              "by construction: callers pass the additional-bytes buffer made with constant size 1/2/4/8 or a 1-byte literal; checked by rule head-bytes",
+	"fdo/cbor.overflows|programming error - invalid kind for overflow check":                                 "validated by caller: the kind switch in decodePositive precedes the call",
+	"fdo/cbor.overflowsInt|programming error - invalid kind for overflow check":                              "validated by caller: the kind switch in decodeNegative precedes the call",
+	"fdo/cbor.BytewiseLexicalSort$1|unreachable for valid CBOR map keys":                                     "keys were marshalled by this encoder immediately before sorting",
+	"fdo/cbor/cdn.sortMap|<dynamic>":                                                                         "debug notation only: keys were produced by this decoder and are re-encodable",
+	"fdo/internal/nistkdf.KDF|unsupported hash size":                                                         "registry data: the PRF hash comes from a registered cipher suite (C09.cipher-registry pins it to SHA-256/384)",
+	"fdo/internal/nistkdf.KDF|n too large":                                                                   "registry data: key sizes come from registered algorithms",
+	"fdo/kex.ecdhParam.MarshalBinary|invalid public key - too large":                                         "own key: the encoded point is this side's freshly generated key",
+	"fdo/plugin.command.ParseParam|programming error - invalid pluginCommand":                                "local plugin protocol (child process), enumeration of own constants",
+	"fdo/plugin.command.ValidParamType|programming error - invalid pluginCommand":                            "local plugin protocol (child process), enumeration of own constants",
+	"fdo/plugin.protocol.EncodeValue|<dynamic>":                                                              "local plugin protocol (child process)",
+	"fdo/serviceinfo.ArraySizeCBOR|service info cannot contain > 65535 KVs":                                  "local producer: counts service info produced by local modules within one MTU",
+	"fdo/serviceinfo.cborEncodedLen|KV cannot have length > max uint16":                                      "local producer: sizes of locally produced chunks, bounded by the uint16 MTU",
+	"fdo/fsim.Command.receive|command should always be started":                                              "invariant cmd!=nil => started, restored by fix 7f4b2aa and checked by rule cmd-started",
+	"fdo/fsim.Command.reset|command should always be started":                                                "invariant cmd!=nil => started, restored by fix 7f4b2aa and checked by rule cmd-started",
+	"fdo/sqlite.query|programming error - query must have the same number of columns and values":             "call sites pass literal column lists and matching destinations (C18 extracts them)",
 }
 
 func init() {
@@ -249,23 +248,23 @@ func init() {
 }
 
 var ssaArtifactPanics = map[string]bool{
-	"blocking select matched no case":           true,
-	"iterator call did not preserve panic":      true,
-	"yield function called after range loop exit": true,
+	"blocking select matched no case":                                                true,
+	"iterator call did not preserve panic":                                           true,
+	"yield function called after range loop exit":                                    true,
 	"range function continued iteration after function for loop body returned false": true,
 }
 
 // partialLookups: functions that panic on a value outside their table; every
 // call with a peer-controlled receiver needs a validator on all paths.
 var partialLookups = map[string]string{
-	"fdo/protocol.HashAlg.HashFunc":           "hashalg-safe",
-	"fdo/cose.SignatureAlgorithm.HashFunc":    "sigalg-safe",
-	"fdo/kex.CipherSuiteID.Suite":             "cipher-safe",
-	"fdo/cose.EncryptAlgorithm.NewCrypter":    "encalg-safe",
-	"fdo/cose.EncryptAlgorithm.SupportsAD":    "encalg-safe",
-	"fdo/cose.EncryptAlgorithm.KeySize":       "encalg-safe",
-	"fdo/cose.MacAlgorithm.NewMac":            "macalg-safe",
-	"fdo/cose.MacAlgorithm.KeySize":           "macalg-safe",
+	"fdo/protocol.HashAlg.HashFunc":        "hashalg-safe",
+	"fdo/cose.SignatureAlgorithm.HashFunc": "sigalg-safe",
+	"fdo/kex.CipherSuiteID.Suite":          "cipher-safe",
+	"fdo/cose.EncryptAlgorithm.NewCrypter": "encalg-safe",
+	"fdo/cose.EncryptAlgorithm.SupportsAD": "encalg-safe",
+	"fdo/cose.EncryptAlgorithm.KeySize":    "encalg-safe",
+	"fdo/cose.MacAlgorithm.NewMac":         "macalg-safe",
+	"fdo/cose.MacAlgorithm.KeySize":        "macalg-safe",
 }
 
 func e3Rules(p *Prog) *RuleSet {
@@ -1516,19 +1515,19 @@ func arithNonNeg(m *Matcher, v ssa.Value, depth int) bool {
 }
 
 var reviewedBounds = map[string]string{
-	"fdo/internal/nistkdf.KDF":                          "buffers are sized from the requested bit length and the PRF size, both registry constants (C09.cipher-registry); the derived secret only fills them",
-	"fdo/cbor/cdn.sortMap$1":                            "debug notation: indices is a permutation of 0..len(keys)-1 built in the enclosing function",
-	"fdo/cose.truncHash.Sum":                            "Truncate is the registered constant 8, below every hash size",
-	"fdo/cose.aesCbcMac.Write":                          "AES-CBC-MAC is registered but used by no cipher suite (C09.cipher-registry lists only HMAC); pos is kept below the block size by construction",
-	"fdo/cose.aesCbcMac.Sum":                            "AES-CBC-MAC is registered but used by no cipher suite; tag sizes are registered constants not above the block size",
-	"fdo/serviceinfo.ChunkReader.ReadChunk":             "the buffer was grown to at least size-maxOverhead by the make immediately above",
-	"fdo/serviceinfo.DevmodModulesChunk.UnmarshalCBOR":  "range index over arr[2:] into a slice made with len(arr)-2 elements",
-	"fdo/kex.dhSymmetricKey":                            "the KDF output has exactly sekSize+svkSize bytes (requested length), sizes from the registry",
-	"fdo/kex.ecdhSymmetricKey":                          "the KDF output has exactly sekSize+svkSize bytes (requested length), sizes from the registry",
-	"fdo/kex.oaepSymmetricKey":                          "the KDF output has exactly sekSize+svkSize bytes (requested length), sizes from the registry",
-	"fdo/kex.ecdhParam.MarshalBinary":                   "encodes this side's own freshly generated uncompressed point (1+2n bytes)",
-	"fdo/fsim.Upload.upload":                            "slices its own 1014-byte buffer by min(1014, remaining file size) and by the byte count Read returned for that slice (local file, not peer data)",
-	"fdo/protocol.PublicKey.parseX5Chain":               "range index over certs into a slice made with len(certs) elements (the constant-index uses are discharged by the len(certs)==0 guard)",
+	"fdo/internal/nistkdf.KDF":                         "buffers are sized from the requested bit length and the PRF size, both registry constants (C09.cipher-registry); the derived secret only fills them",
+	"fdo/cbor/cdn.sortMap$1":                           "debug notation: indices is a permutation of 0..len(keys)-1 built in the enclosing function",
+	"fdo/cose.truncHash.Sum":                           "Truncate is the registered constant 8, below every hash size",
+	"fdo/cose.aesCbcMac.Write":                         "AES-CBC-MAC is registered but used by no cipher suite (C09.cipher-registry lists only HMAC); pos is kept below the block size by construction",
+	"fdo/cose.aesCbcMac.Sum":                           "AES-CBC-MAC is registered but used by no cipher suite; tag sizes are registered constants not above the block size",
+	"fdo/serviceinfo.ChunkReader.ReadChunk":            "the buffer was grown to at least size-maxOverhead by the make immediately above",
+	"fdo/serviceinfo.DevmodModulesChunk.UnmarshalCBOR": "range index over arr[2:] into a slice made with len(arr)-2 elements",
+	"fdo/kex.dhSymmetricKey":                           "the KDF output has exactly sekSize+svkSize bytes (requested length), sizes from the registry",
+	"fdo/kex.ecdhSymmetricKey":                         "the KDF output has exactly sekSize+svkSize bytes (requested length), sizes from the registry",
+	"fdo/kex.oaepSymmetricKey":                         "the KDF output has exactly sekSize+svkSize bytes (requested length), sizes from the registry",
+	"fdo/kex.ecdhParam.MarshalBinary":                  "encodes this side's own freshly generated uncompressed point (1+2n bytes)",
+	"fdo/fsim.Upload.upload":                           "slices its own 1014-byte buffer by min(1014, remaining file size) and by the byte count Read returned for that slice (local file, not peer data)",
+	"fdo/protocol.PublicKey.parseX5Chain":              "range index over certs into a slice made with len(certs) elements (the constant-index uses are discharged by the len(certs)==0 guard)",
 }
 
 // ---- G4: stdlib preconditions ----------------------------------------------------------
@@ -1540,17 +1539,17 @@ type stdPre struct {
 }
 
 var stdPreconditions = map[string]stdPre{
-	"crypto/cipher.NewCBCDecrypter":         {1, "leneq", "cipher.NewCBCDecrypter panics if len(iv) != block size"},
-	"crypto/cipher.NewCBCEncrypter":         {1, "leneq", "cipher.NewCBCEncrypter panics if len(iv) != block size"},
-	"crypto/cipher.NewCTR":                  {1, "leneq", "cipher.NewCTR panics if len(iv) != block size"},
-	"crypto/cipher.AEAD.Open":               {2, "leneq", "AEAD.Open panics on a nonce of the wrong length"},
-	"crypto/cipher.AEAD.Seal":               {2, "leneq", "AEAD.Seal panics on a nonce of the wrong length"},
-	"crypto/cipher.BlockMode.CryptBlocks":   {2, "lenmod", "BlockMode.CryptBlocks panics if len(src) is not a multiple of the block size"},
-	"encoding/binary.bigEndian.Uint16":      {1, "lenge:2", "binary.BigEndian.Uint16 panics if len(b) < 2"},
-	"encoding/binary.bigEndian.Uint32":      {1, "lenge:4", "binary.BigEndian.Uint32 panics if len(b) < 4"},
-	"encoding/binary.bigEndian.Uint64":      {1, "lenge:8", "binary.BigEndian.Uint64 panics if len(b) < 8"},
-	"reflect.Value.SetMapIndex":             {1, "atom:key-comparable", "reflect.Value.SetMapIndex panics (hash of unhashable type) if the key's dynamic type is not comparable"},
-	"math/big.Int.FillBytes":                {0, "fillbytes", "big.Int.FillBytes panics if the buffer is too small for the value"},
+	"crypto/cipher.NewCBCDecrypter":       {1, "leneq", "cipher.NewCBCDecrypter panics if len(iv) != block size"},
+	"crypto/cipher.NewCBCEncrypter":       {1, "leneq", "cipher.NewCBCEncrypter panics if len(iv) != block size"},
+	"crypto/cipher.NewCTR":                {1, "leneq", "cipher.NewCTR panics if len(iv) != block size"},
+	"crypto/cipher.AEAD.Open":             {2, "leneq", "AEAD.Open panics on a nonce of the wrong length"},
+	"crypto/cipher.AEAD.Seal":             {2, "leneq", "AEAD.Seal panics on a nonce of the wrong length"},
+	"crypto/cipher.BlockMode.CryptBlocks": {2, "lenmod", "BlockMode.CryptBlocks panics if len(src) is not a multiple of the block size"},
+	"encoding/binary.bigEndian.Uint16":    {1, "lenge:2", "binary.BigEndian.Uint16 panics if len(b) < 2"},
+	"encoding/binary.bigEndian.Uint32":    {1, "lenge:4", "binary.BigEndian.Uint32 panics if len(b) < 4"},
+	"encoding/binary.bigEndian.Uint64":    {1, "lenge:8", "binary.BigEndian.Uint64 panics if len(b) < 8"},
+	"reflect.Value.SetMapIndex":           {1, "atom:key-comparable", "reflect.Value.SetMapIndex panics (hash of unhashable type) if the key's dynamic type is not comparable"},
+	"math/big.Int.FillBytes":              {0, "fillbytes", "big.Int.FillBytes panics if the buffer is too small for the value"},
 }
 
 func (e *E3) g4(r *Result, prefix string, f *Flow) {
